@@ -29,6 +29,8 @@ G["MultiClass"] = S(T("MultiClass"), N("Identifier"), O(N("TemplateArgList")), N
 G["SimpleValue"] = A(N("Integer"), N("String"), N("Code"), N("Boolean"), N("Uninitialized"), N("Bits"),
                      N("List"), N("Dag"), N("IdentifierOrClassValue"), N("BangOperator"), N("CondOperator"))
 G["InnerNameValue"] = S(N("SimpleValue"), R(NF(("LBrace",), N("ValueSuffix"))))
+# unit form of Dag over the DagArg callee (the recogniser in grammar.py spells the alternatives out)
+G["Dag"] = S(T("LParen"), N("DagArg"), O(NF(gr.VALUE_CONT, N("DagArgList"))), T("RParen"))
 
 ALL = sorted(G.keys())
 RID = {k: i for i, k in enumerate(ALL)}
@@ -124,6 +126,70 @@ def cont_sets():
 
 
 CONT = cont_sets()
+
+
+def follow_sets():
+    """FOLLOW(R) over the documented grammar: the tokens that may come right after a sentence of R
+    in some sentential form (standard fixpoint).  Used to choose realistic tokens after a
+    sentence in the generative harnesses."""
+    follow = {k: set() for k in G}
+
+    def walk(x, after_first, after_nullable, owner):
+        """after_*: FIRST / nullability of what follows x inside the rule `owner`"""
+        tag = x[0]
+        if tag == "T":
+            return
+        if tag == "N":
+            follow[x[1]] |= after_first
+            if after_nullable:
+                follow[x[1]] |= follow[owner]
+            return
+        if tag == "S":
+            items = x[1]
+            for i, y in enumerate(items):
+                af, an = set(), True
+                for z in items[i + 1:]:
+                    nz, fz = _nf(z)
+                    af |= fz
+                    if not nz:
+                        an = False
+                        break
+                if an:
+                    af |= after_first
+                walk(y, af, an and after_nullable, owner)
+            return
+        if tag == "A":
+            for y in x[1]:
+                walk(y, after_first, after_nullable, owner)
+            return
+        if tag == "G":
+            walk(x[2], after_first, after_nullable, owner)
+            return
+        if tag == "O":
+            walk(x[1], after_first, after_nullable, owner)
+            return
+        if tag == "R":
+            _, fy = _nf(x[1])
+            walk(x[1], after_first | fy, after_nullable, owner)
+            return
+        raise ValueError(tag)
+    changed = True
+    while changed:
+        before = {k: set(v) for k, v in follow.items()}
+        for k, rhs in G.items():
+            walk(rhs, set(), True, k)
+        changed = before != follow
+    return follow
+
+
+FOLLOW = follow_sets()
+# pseudo nonterminals that no rule references inherit the FOLLOW of what they stand for
+FOLLOW["ObjectName"] |= FIRST["RecordBody"] | FIRST["ParentClassList"] | {"Semi"}
+FOLLOW["OptTemplateArgList"] |= FIRST["RecordBody"] | FIRST["ParentClassList"] | {"LBrace"}
+FOLLOW["OptValue"] |= FOLLOW["SliceElement"]
+FOLLOW["BodyItemOpt"] |= FIRST["BodyItem"] | {"RBrace"}
+FOLLOW["ValueSuffixOpt"] |= FOLLOW["InnerValue"]
+FOLLOW["MultiClassStatements"] |= FOLLOW["MultiClass"]
 
 # ---------------------------------------------------------------------------
 # callee rule functions that can be replaced by their contract
@@ -527,18 +593,22 @@ def gen(tier="quick"):
         w("}")
         # generative: NFA over the stream, every token read as a terminal or as the placeholder
         # of a boundary callee whose FIRST contains it
-        w(f"pub fn sentence_{name}(p: &Parser) -> bool {{")
+        w(f"pub fn follow_{name}(k: K) -> bool {{ matches!(k, {kinds_pat(FOLLOW[nt])}) }}")
+        w(f"pub fn sentence_{name}(p: &Parser, ns: usize) -> bool {{")
+        w("    // the first ns tokens form a sentence (each read as a terminal or as the placeholder of a")
+        w("    // callee whose FIRST contains it) and token ns, if any, is in FOLLOW(rule) and cannot continue it")
         w(f"    let mut m: u64 = {startm};")
         w("    let n = l1::l2_ntok(p);")
+        w("    let mut ok = true;")
         for i in range(8):
-            w(f"    if {i} < n {{")
+            w(f"    if {i} <= ns && {i} < n {{")
             w(f"        let k = l1::l2_kind_at(p, {i});")
             w(f"        let mut r = step_{name}(m, l1::EV_TOK, k as u8, k as u8);")
             for bnt in sorted(boundary):
                 w(f"        if first_{bnt}(k) {{ r |= step_{name}(m, l1::EV_OK, {RID[bnt]}, k as u8); }}")
-            w("        m = r;")
+            w(f"        if {i} < ns {{ m = r; }} else {{ ok = r == 0 && follow_{name}(k); }}")
             w("    }")
-        w(f"    m & {acceptm} != 0")
+        w(f"    ok && (m & {acceptm} != 0)")
         w("}")
         stublines = []
         for st in ("token, crate::parser::verif_parser_h::g_token_l2", "start_node, crate::parser::verif_parser_h::g_start_node",
@@ -595,14 +665,16 @@ def gen(tier="quick"):
         w("    let n: usize = kani::any();")
         w(f"    kani::assume(n <= {n}{' && n >= 1' if first else ''});")
         w(f"    let mut p = l1::l2_parser(n, {fk});")
-        w(f"    kani::assume(sentence_{name}(&p));")
+        w("    let ns: usize = kani::any();")
+        w(f"    kani::assume(ns <= n{' && ns == n' if name == 'source_file' else ''}{' && ns >= 1' if first else ''});")
+        w(f"    kani::assume(sentence_{name}(&p, ns));")
         w("    unsafe { G_GMODE = true; }")
         w("    {")
         w("        let p = &mut p;")
         w(f"        {call}")
         w("    }")
         w(f"    let kf = {kfexpr};")
-        w("    gen_judge(&mut p, kf);")
+        w("    gen_judge(&mut p, ns, kf);")
         w("    std::mem::forget(p);")
         w("}")
     w("}")
